@@ -325,15 +325,18 @@ func checkMsgBuf(c msgBufCase) error {
 	if err != nil {
 		return nil // not a message
 	}
-	roots, special := 0, false
+	roots, special, u8 := 0, false, false
 	names := msgNames(c.M)
 	for _, n := range names {
 		if len(n) == 0 {
 			roots++
 		}
 		special = special || hasEscapeWorthy(n)
+		if strings.Contains(highClass(wm.Name(n)), "well-formed") {
+			u8 = true
+		}
 	}
-	pbt.Note(want, roots > 0 || special, d.class(), fmt.Sprintf("root-names=%d", min(roots, 3)), fmt.Sprintf("compress=%v", c.Compress), fmt.Sprintf("reused-after-message=%v", c.First != nil))
+	pbt.Note(want, roots > 0 || special, d.class(), fmt.Sprintf("name-with-well-formed-utf8-label=%v", u8), fmt.Sprintf("root-names=%d", min(roots, 3)), fmt.Sprintf("compress=%v", c.Compress), fmt.Sprintf("reused-after-message=%v", c.First != nil))
 	restore := wm.Spelling(c.Spell)
 	defer restore()
 	lm, err := wm.MsgToLib(c.M, c.Compress)
@@ -374,6 +377,11 @@ func checkMsgBuf(c msgBufCase) error {
 	if uerr := back.Unpack(packed); uerr != nil {
 		return pbt.Errf("Msg.PackBuffer into a used buffer (%v) emitted %x, which Msg.Unpack rejects: %v (names %s)", d, packed, uerr, describeNames(names))
 	}
+	// the names Msg.Unpack hands out are written the one way the statement describes, whatever the
+	// spelling they were handed in with and whether they were read through a pointer or not
+	if nerr := checkNameTexts(fmt.Sprintf("Msg.Unpack(%x)", packed), msgNameTexts(&back), names); nerr != nil {
+		return nerr
+	}
 	// every record by itself, at an offset of a used buffer
 	for _, r := range c.M.AllRecs() {
 		rw, err := wm.EncodeRR(r)
@@ -396,6 +404,13 @@ func checkMsgBuf(c msgBufCase) error {
 		if verr := d.untouched(what, b, d.Off, len(b)); verr != nil {
 			return verr
 		}
+		urr, uoff, uerr := dns.UnpackRR(b[:off1], d.Off)
+		if uerr != nil || uoff != off1 {
+			return pbt.Errf("UnpackRR of what %s wrote (%x): offset %d, err %v; want %d, nil", what, rw, uoff, uerr, off1)
+		}
+		if nerr := checkNameTexts(fmt.Sprintf("UnpackRR(%x)", rw), rrNameTexts(urr), msgNames(wm.Msg{An: []wm.Rec{r}})); nerr != nil {
+			return nerr
+		}
 	}
 	return nil
 }
@@ -414,6 +429,11 @@ func genMsgBuf(t *rapid.T) msgBufCase {
 		switch k := rapid.IntRange(0, 9).Draw(t, "namekind"); {
 		case k < 3:
 			return wm.Name{} // the root: question for ". NS", null MX / SRV target, SOA of the root zone
+		case k == 9 && rapid.Bool().Draw(t, "u8name"):
+			// DNS-SD instance names, U-labels: labels of multi-octet UTF-8 characters (utf8_test.go)
+			n := genUTF8Name(t, 20)
+			pool = append(pool, n)
+			return n
 		case k < 6 && len(pool) > 0:
 			base := pool[rapid.IntRange(0, len(pool)-1).Draw(t, "base")]
 			n := wm.Name{gen.Label(t, gen.NameOpts{MaxLabel: 6})}
